@@ -202,7 +202,7 @@ def l5(ctx: Ctx):
     c2 = [c for c in seq_ if isinstance(c, ast.Call) and call_name(c) == "add_from_str" and c.args and isinstance(c.args[0], ast.Name) and c.args[0].id in emitted_names]
     c3 = [c for c in seq_ if isinstance(c, ast.Call) and call_name(c) == "get_procedure_and_dependencies" and c.args and isinstance(c.args[0], ast.Name) and c.args[0].id == "procname"]
     ok6 = bool(c1 and c2 and c3) and pos_[id(c1[0])] < pos_[id(c2[0])] < pos_[id(c3[0])]
-    ctx.ob("convert:feeds-bank", ok6, "" if ok6 else "convert() does not load ecb.b09, then the emitted program, then ask for the closure of procname", file=COMPILER_REL, line=P.fn.lineno)
+    ctx.ob("convert:feeds-bank", ok6, "" if ok6 else "convert() does not load ecb.b09, then the emitted program, then ask for the closure of procname", file=COMPILER_REL, line=P.fn.lineno, props=["C13", "C11"])
 
 
 _APPLY = {"findall": 0, "finditer": 0, "search": 0, "match": 0, "fullmatch": 0, "sub": 1, "subn": 1, "split": 0}
